@@ -71,7 +71,27 @@ CLAIM = dict(
           "clause of staleMasks). wait_for_cores_to_reach_state: the iterable of states must be re-iterable (a generator "
           "is consumed by the first poll); time is an integer clock supplied by the environment; `while True` is modelled "
           "with fuel and an explicit out-of-fuel result. The machine specification models only the start signal and the "
-          "count request; for the other signals only the packing is proved/compared. SCP transport reliability is C06."),
+          "count request; for the other signals only the packing is proved/compared. SCP transport reliability is C06. "
+          "Validated by which stream: single calls, history steps and scale cases all go through the same oracles "
+          "(wellFormedFill/isFillPkts, regionsOK, resendOK, postOkCore/postErrCore with staleMasks/staleHides, "
+          "startOnceOK, trace/outcome/state equality with both controller models, simulator = machine specification); "
+          "histories add: error payload unchanged after later calls (violation error-payload-changed), caller's map not "
+          "modified and str(error) does not raise (mismatch only: the property does not speak about them), a call that "
+          "does not return within the CPU limit (violation did-not-return: the model's loop terminates, "
+          "attempts_bounded); an injected transport fault / missing file is only tagged (SCPError / IOError belong to "
+          "other layers) - what is checked is that the following steps on the same objects pass all oracles. "
+          "Checklist items judged not applicable: byte-string kinds (the binary is read from a file by the code "
+          "itself); big ints for app_id / core / chip numbers (8-, 5- and 8-bit wire fields: domain app id < 256, cores "
+          "< 18, coordinates < 256, so machines are at most 256 chips long and nothing is counted in 16 bits; "
+          "the 8-bit counts are exercised: 256/257 blocks = known finding, > 126 fills = id wrap); one-shot iterators "
+          "for cores (load_application takes len() of them) - they are used for the states of count_cores_in_state "
+          "only; subclasses of rig classes other than the controller (the API takes plain dicts and sets); lazily "
+          "consumed results (nothing lazy is returned); recursion depth (no recursion in scope except the 4-level "
+          "region tree of C12); alternative struct layouts / offsets (`structs=` of the controller: the layout is data "
+          "regenerated by the translator, varying it is C07/C13's configuration stream); SCP timeouts / window / "
+          "retries of the connection (C06); the model receives n_tries capped at 40 (beyond the missed script every "
+          "attempt reaches every chip). Left at the default everywhere: `structs`, `scp_port`, `boot_port`, "
+          "`initial_context` of the controller constructor."),
     technique="Lean 4 theorems over controller model x machine specification + trace correspondence against a simulated machine + Lean spec oracles")
 
 THEOREMS = ["nnid_range", "fill_wellformed", "fill_loads_exactly", "attempts_bounded",
@@ -106,7 +126,22 @@ RULE = ("cases = (machine of 1-40 chips: rectangles at several origins incl. ali
         "invalid names and numbers; count_cores_in_state with one state or a list / tuple / generator of 0-4 states incl. "
         "invalid ones; wait_for_cores_to_reach_state with target counts around the current count, timeout none or 0-8 "
         "ticks, clock scripts advancing by one / jumping / stalling, up to 5 evolution steps of the machine during the "
-        "sleeps, fuel 4-9), non-trivial = at least one sleep, a list of states, an error or a delivered signal")
+        "sleeps, fuel 4-9; arguments by name / enum member / int / bool, positionally / by keyword / app_id through the "
+        "controller context; target counts up to 2**64), non-trivial = at least one sleep, a list of states, an error or "
+        "a delivered signal; STREAMS: (1) single calls on a fresh machine and controller [all oracles]; every case also "
+        "draws the argument kinds (cores as set / frozenset / list / tuple / dict keys / range, map as dict / OrderedDict / "
+        "defaultdict, file names as str / pathlib.Path incl. names containing '%' and '{}', ints as int / numpy.int64, "
+        "flags as bool / int, n_tries up to 2**100, parameters left at their documented default, app_start_delay 0 / 0.1 / "
+        "0.5 / 1 with the sleep recorded, a user subclass of MachineController, sv.vcpu_base differing between chips, an "
+        "empty map); (2) histories of 2-6 calls (one of 35 calls / > 130 fills, so the fill id wraps) on ONE machine "
+        "through one or two controllers after a reload of the rig modules: each step judged as a single case with the "
+        "actual pre-state and nn-id by all oracles; steps are the previous call again / a twin differing in one aspect "
+        "(one core, one chip, one image under the same file name, wait, mode, app id, n_tries, argument kinds, calling "
+        "convention, delay, flood_fill_aplx called directly) / another map; the caller edits in place the map objects it "
+        "passed before, edits or keeps the map of every SpiNNakerLoadingError (kept ones are re-read after every later "
+        "call), the transport dies at a scripted datagram or a file is missing and the same objects are used afterwards; "
+        "(3) scale: 136 binaries in one map, machines 256x1 / 1x256 / 2x200 / 16x16; every implementation call under a CPU "
+        "limit (20 s)")
 
 # SCP data buffer sizes the machine reports through sver (scp_data_length): the usual 256, small ones, and
 # machines with a LARGER buffer (every multiple of 4 up to 1024 is in the domain: the word count of a data
@@ -956,15 +991,21 @@ def eval_units(ctx, units, k):
         apps_j = case["apps"]
         only_fill = bool(case.get("only_fill"))
         batch = []
-        batch.append(("machine", dict(base, op="machine", reqs=[r for r, _ in res["trace"]])))
+        # a call that did not return, or returned after an absurd number of requests, is reported as such: its
+        # trace is not replayed through the machine specification (tens of thousands of fills)
+        huge = abnormal(case, res) == "hang" or len(res["trace"]) > 60000
+        if not huge:
+            batch.append(("machine", dict(base, op="machine", reqs=[r for r, _ in res["trace"]])))
         fills = split_fills(res["trace"], k)
-        if abnormal(case, res) is None:
+        if abnormal(case, res) is None and not huge:
+            # (the model gets n_tries capped at 40: beyond the missed script - at most 12 fills - every attempt
+            # reaches every chip, so a run that needs more attempts differs from the implementation anyway)
             batch.append(("model", dict(base, op="load", compress=res["records"], buf=case["buf"], app_id=case["app_id"],
-                                        n_tries=case["n_tries"], wait=case["wait"], use_count=case["use_count"],
+                                        n_tries=min(case["n_tries"], 40), wait=case["wait"], use_count=case["use_count"],
                                         apps=apps_j, nn=case["nn"], only_fill=only_fill)))
             # the controller of the `_c12` theorems: region compression by C12's model instead of the table
             batch.append(("model_c12", dict(base, op="load", buf=case["buf"], app_id=case["app_id"],
-                                            n_tries=case["n_tries"], wait=case["wait"], use_count=case["use_count"],
+                                            n_tries=min(case["n_tries"], 40), wait=case["wait"], use_count=case["use_count"],
                                             apps=apps_j, nn=case["nn"], only_fill=only_fill)))
             for i, f in enumerate(fills):
                 name = res["opened"][i] if i < len(res["opened"]) else None
@@ -1075,11 +1116,27 @@ def judge(ctx, case, res, kinds, rs, n_fills, k, stale=None, payload=None):
     by = {}
     for kind, r in zip(kinds, rs):
         by.setdefault(kind, []).append(r)
+    if "machine" not in by:
+        ctx.tag("did_not_return" if abnormal(case, res) == "hang" else "trace_over_60000_requests")
+        if abnormal(case, res) == "hang":
+            # the model's retry loop terminates (theorem attempts_bounded)
+            ctx.violation("did-not-return", "load_application %s (%d requests sent)" % (
+                outcome["hang"], len(res["trace"])), payload)
+        else:
+            ctx.mismatch("c09.trace", "the call sent %d requests" % len(res["trace"]), payload)
+        return
     # ---- (b) simulator vs Lean machine specification --------------------------------
     m = by["machine"][0]
     sim_replies = [e[1] for e in res["trace"]]
-    if m["replies"] != sim_replies:
-        i = next(i for i, (a, b) in enumerate(zip(m["replies"], sim_replies)) if a != b)
+    outside = [i for i, a in enumerate(m["replies"]) if a.get("rc") == "unmodelled"]
+    if outside:
+        # the implementation sent a request the machine specification gives no meaning to (e.g. a read of an
+        # address that is no system variable of that chip): whatever the simulator answered is not to be trusted;
+        # the comparison with the model below reports the difference
+        ctx.tag("request_outside_machine_spec")
+    if [a for i, a in enumerate(m["replies"]) if i not in outside] != \
+            [b for i, b in enumerate(sim_replies) if i not in outside]:
+        i = next(i for i, (a, b) in enumerate(zip(m["replies"], sim_replies)) if a != b and i not in outside)
         raise Infra("simulated machine and Lean machine specification disagree on reply %d: spec %r sim %r (request %r)" % (
             i, m["replies"][i], sim_replies[i], res["trace"][i][0]))
     if sorted(m["cores"]) != sorted(res["after"]):
@@ -1701,7 +1758,7 @@ def run(ctx):
         cases = [stale_count_case(), stale_readback_case(), overflow_case(),
                  stale_more_case(1), stale_more_case(2), stale_more_case(3), stale_more_case(5)]
         cases += [big_buffer_case(b, uc) for b in (128, 260, 512, 1024) for uc in (True, False)]
-        n = ctx.scale(200, 3500)
+        n = ctx.scale(200, 3200)
         if ctx.extended:
             n *= 4
         for i in range(n):
